@@ -68,11 +68,10 @@ theorem collect_only_visited (atoms : List Atom) (c : Cand) (hc : c ∈ collect 
   simp only [Atom.visited, Bool.and_eq_true, Bool.not_eq_true', Bool.or_eq_false_iff, beq_eq_false_iff_ne] at hv
   exact ⟨hv.1, hv.2.1.1, hv.2.1.2, hv.2.2, hca⟩
 
-/-- **C02 as evaluated by the driver on the implementation's output of `gatherMatches`** -/
-theorem C02_checkGather (name : Bytes) (atoms : List Atom) :
-    checkGather name (collect atoms) (gatherMatches name atoms) = true := by
-  unfold checkGather gatherMatches
-  generalize collect atoms = cands
+/-- the statement the driver evaluates on `gatherMatches`' output holds of the model for every candidate collection -/
+theorem checkGather_gatherCands (name : Bytes) (cands : List Cand) :
+    checkGather name cands (gatherCands name cands) = true := by
+  unfold checkGather
   by_cases hne : cands = []
   · subst hne
     simp [gatherCands, orderedDisjoint, candsAsRanges, isSortedCands]
@@ -92,6 +91,28 @@ theorem C02_checkGather (name : Bytes) (atoms : List Atom) :
       simp only [List.mem_filter, Bool.not_eq_true'] at ha hb
       exact hab (by rw [ha.2, hb.2])
     · exact hmem c hc
+
+/-- **C02 as evaluated by the driver on the implementation's output of `gatherMatches`** (flat atom lists) -/
+theorem C02_checkGather (name : Bytes) (atoms : List Atom) :
+    checkGather name (collect atoms) (gatherMatches name atoms) = true :=
+  checkGather_gatherCands name (collect atoms)
+
+/-- … and over nested match trees, with `visitMatches` modelled as the recursive function it is -/
+theorem C02_checkGather_tree (name : Bytes) (t : MT) :
+    checkGather name (visit t) (gatherTree name t) = true :=
+  checkGather_gatherCands name (visit t)
+
+/-- `visitMatches` collects nothing below `not`, `noVisit` and `type:file`, nothing from other leaves, and skips a
+    child of and / or / andLine whose `known` value is not true -/
+theorem visit_skips (c t : MT) (r : List (Bool × MT)) :
+    visit (.not c) = [] ∧ visit (.noVisit c) = [] ∧ visit (.fileName c) = [] ∧ visit .other = [] ∧
+    visitList ((false, t) :: r) = visitList r ∧ visit (.boost c) = visit c ∧ visit (.symbolSubstr c) = visit c := by
+  simp [visit, visitList]
+
+example : gatherTree [102] (.or [(true, .and [(true, .atom 0 [⟨false, 4, 3⟩, ⟨false, 0, 3⟩]), (false, .atom 1 [⟨false, 9, 1⟩])]),
+    (true, .not (.atom 1 [⟨false, 20, 1⟩])), (true, .boost (.atom 2 [⟨false, 2, 3⟩]))]) =
+    [⟨false, 0, 3⟩, ⟨false, 4, 3⟩] := by
+  simp [gatherTree, visit, visitList]; decide
 
 /-- the order in which the atoms' candidates were collected (the order of the match tree's children) does not matter -/
 theorem gather_order_insensitive (name : Bytes) (cands cands' : List Cand) (hp : cands'.Perm cands) :
